@@ -288,6 +288,10 @@ def check_bdf(F, run, name):
                 a0 = peel(e["args"][0])
                 if a0.get("k") == "Local":
                     role[n["pat"].get("name")] = a0["name"]
+                elif a0.get("k") in ("Closure", "Path"):           # residual written in place, or a method passed by path
+                    for cname, c in r["closures"].items():
+                        if c["node"] is a0 or (a0.get("k") == "Path" and c["node"].get("k") == "Path" and c["node"].get("def") == a0.get("def")):
+                            role[n["pat"].get("name")] = cname
     acc = [n for n in walk(step["body"], into_closures=False) if n.get("k") == "Assign" and place(n["l"]) == "self.state" and peel(n["r"]).get("k") == "Local"
            and peel(n["r"])["name"] in role]
     if not run.check(len(acc) == 1, "R3.4", dp, "accepted-solve", F.loc(step), "cannot find `self.state = <result of secant(residual)>`"):
